@@ -21,6 +21,10 @@ Ltac mx_entries :=
          | |- context [@fun_of_matrix _ _ _ ?A ?i ?j] =>
              let x := fresh "x" in set x := (@fun_of_matrix _ _ _ A i j); clearbody x
          end.
+(* distribute products over sums, push negations out, reassociate to the left *)
+Ltac mx_expand :=
+  rewrite ?(mulmxDr, mulmxDl, mulmxBr, mulmxBl, mulmxN, mulNmx, opprD, opprK) ?mulmxA
+          ?(mulmxDr, mulmxDl, mulmxBr, mulmxBl, mulmxN, mulNmx, opprD, opprK) ?mulmxA.
 Ltac mx_abel := mx_atoms; apply/matrixP=> ? ?; rewrite !mxE; mx_entries; ring.
 
 Section Sym.
